@@ -362,7 +362,7 @@ SPEC = {
              'distinct = distinct operation sequences; non-trivial = >= 3 steps, >= 2 operation kinds, a non-zero state in the pool.'),
     'deciding': ['history.class-invariant', 'history.shadow-model', 'history.total-charge-kept'],
     'workloads': [
-        Workload('histories', history_case, quick=600, thorough=12000),
+        Workload('histories', history_case, quick=600, thorough=36000),
         Workload('suite-soak', soak_case, quick=0, thorough=1, shardable=False),
     ],
     'shards': {'quick': 4, 'thorough': 16},
